@@ -158,10 +158,23 @@ def prop_modules(prop_id):
 
 
 def theorem_names(prop_id):
+    """fully qualified names of all theorems of the property's modules (tracks nested `namespace … end`)"""
     out = []
     for f in prop_modules(prop_id):
         src = strip_comments(f.read_text())
-        out += [f"Vrp.{prop_id}.{m}" for m in re.findall(r"^theorem\s+([^\s\(\{\[:]+)", src, flags=re.M)]
+        stack = []
+        for ln in src.splitlines():
+            m = re.match(r"^namespace\s+(\S+)", ln)
+            if m:
+                stack.append(m.group(1))
+                continue
+            m = re.match(r"^end\s+(\S+)", ln)
+            if m and stack and stack[-1] == m.group(1):
+                stack.pop()
+                continue
+            m = re.match(r"^(?:private\s+|protected\s+)?theorem\s+([^\s\(\{\[:]+)", ln)
+            if m and not ln.startswith("private"):
+                out.append(".".join(stack + [m.group(1)]))
     return out
 
 
